@@ -860,6 +860,68 @@ func guard(f func()) (p string) {
 	return ""
 }
 
+// checkParse compares the real parser with the parser model on one text (valid or not): ok / error, the AST
+// structurally, and String() of the parsed group with the printer model.
+func (c *runner) checkParse(text string, group selector.SelectorGroup, perr error, seed uint64, stream string) error {
+	if !utf8.ValidString(text) {
+		c.out.Hit("parse:not-utf8")
+		return nil
+	}
+	ans, err := c.m.Ask(sx.L(sx.A("c05parse"), sx.S(text)))
+	if err != nil {
+		return err
+	}
+	input := "sel=" + strconv.Quote(text)
+	implX, supported := "", true
+	if perr == nil {
+		xs := []sx.X{sx.A("sels")}
+		for _, a := range selector.VerifC05DumpGroup(group) {
+			x, ok := astX(a)
+			supported = supported && ok
+			xs = append(xs, x)
+		}
+		implX = sx.L(xs...).String()
+	}
+	diff := func(impl, model, why string) {
+		c.add(res.Finding{Kind: "corr", Op: "corr:parse", Input: input, Impl: impl, Model: model, Reason: why + " (" + stream + " stream)", Seed: seed})
+	}
+	switch ans.Head() {
+	case "unsupported":
+		c.out.Hit("parse:model-unsupported")
+		if perr == nil && supported {
+			diff(implX, "unsupported", "the parser model met a construct outside its grammar, the real parser produced a fully modelled AST")
+		}
+	case "err":
+		c.out.Hit("parse:error")
+		if perr == nil {
+			diff(implX, "error", "the real parser accepts a text the parser model rejects")
+		}
+	case "fuel":
+		diff(fmt.Sprint(perr), "fuel", "the parser model ran out of fuel (parse_total says it cannot)")
+	case "ok":
+		c.out.Hit("parse:ok")
+		switch {
+		case perr != nil:
+			diff("error: "+perr.Error(), ans.Xs[1].String(), "the real parser rejects a text the parser model accepts")
+		case !supported:
+			diff(implX, ans.Xs[1].String(), "the real parser produced a node outside the modelled grammar, the parser model did not notice")
+		case ans.Xs[1].String() != implX:
+			diff(implX, ans.Xs[1].String(), "the parsed ASTs differ")
+		default:
+			var printed string
+			if p := guard(func() { printed = group.String() }); p != "" {
+				c.add(res.Finding{Kind: "crash", Op: "crash:String", Input: input, Reason: p, Key: "String", Seed: seed})
+			} else if printed != ans.Xs[2].S {
+				c.add(res.Finding{Kind: "corr", Op: "corr:print", Input: input, Impl: strconv.Quote(printed), Model: strconv.Quote(ans.Xs[2].S),
+					Reason: "String() differs from the printer model on the same AST (" + stream + " stream)", Seed: seed})
+			}
+		}
+	default:
+		return fmt.Errorf("model answered %.200s for c05parse %s", ans.String(), input)
+	}
+	return nil
+}
+
 // check runs one selector text on one tree. judgeOnly: the text is outside what the model is asked.
 func (c *runner) check(selText string, root *html.Node, seed uint64, feat map[string]bool, stream string) error {
 	out := c.out
@@ -869,6 +931,9 @@ func (c *runner) check(selText string, root *html.Node, seed uint64, feat map[st
 	if p := guard(func() { group, perr = selector.ParseGroup(selText) }); p != "" {
 		c.add(res.Finding{Kind: "crash", Op: "crash:ParseGroup", Input: input, Reason: p, Key: "ParseGroup", Seed: seed})
 		return nil
+	}
+	if err := c.checkParse(selText, group, perr, seed, stream); err != nil {
+		return err
 	}
 	if perr != nil {
 		out.Hit("parse-error")
@@ -1105,6 +1170,71 @@ func (c *runner) corpus() error {
 	return nil
 }
 
+// fragments spliced into selector texts by the parser stream: comments, namespace-like universals, constructs
+// outside the grammar (the model must answer `unsupported` or agree on the error), near-misses of the syntax
+var parseFragments = []string{"/* c */", "/**/", "/*", "*/", "/*/", "*|*", "*|*.a", "*|", "|", "::before", "::BEFORE", ":After", "::nope", ":where(.a)", ":is()", ":not( )",
+	":lang(en)", ":lang( fr-be )", ":contains(\"x\")", ":containsOwn(x)", ":matches(^a)", ":matchesOwn([0-9]+)", "[a#=x]", "[a#=[0-9]+]", ":input", ":link", ":enabled", ":disabled", ":checked",
+	":nth-child(2n of .a)", ":nth-child(n+)", ":nth-child(- n)", ":nth-child(+-n)", ":nth-child(n + -1)", ":nth-child(99999999999999999999)", ":nth-child(9223372036854775807n+1)", ":nth-child(9223372036854775808)",
+	":nth-child(ODD)", ":nth-child(evenx)", ":NTH-child(  2N  -  1  )", ":nth-last-of-type(-N+ 3)", ":first-child(", ":root()", ":hover", ":HOVER", ":target::marker",
+	"[a=b i]", "[a=bi]", "[a='b'I ]", "[a i]", "[a=]", "[a==b]", "[a~b]", "[a!=b]", "[a\u00e9=b]", "[\u00e9=b]", "[a=\u00e9]", "[a\u00e9]", "[a", "[a=", "[a=b", "[a='b", "[a='b\\", "[a='b\\\nc']", "[a=\"b\\\r\nc\"]",
+	"\\", "\\\n", "\\41 ", "\\000041b", "\\41\r\nb", "\\110000 ", "\\d800 ", "\\0 ", "\\zz", "\\\u00e9", "-", "--", "-a", "--a", "-1", "a-", "_", "\u00e9\u6f22", "\U0001f600", "A", "DIV", ">", "+", "~", ",", ", ,", ")", "(", " ", "\t", "\n", "\f", "\r", "\v", "\u00a0", "#", "#1", "#-", ".", ".1", ".-", ".-a", ":", "::", ":::"}
+
+// parseStream: texts only (no tree): grammar-generated selectors with spliced fragments and byte-level
+// mutations, real ParseGroup vs the parser model (ok/error, AST, printed text).
+func (c *runner) parseStream(r *rng.R, n int) error {
+	for i := 0; i < n; i++ {
+		cr := r.Sub()
+		seed := cr.Seed()
+		g := &selGen{r: cr, feat: map[string]bool{}, escapes: cr.Bool()}
+		var text string
+		switch cr.Intn(4) {
+		case 0:
+			text = g.group()
+		case 1: // a few fragments only
+			for k := cr.Range(1, 4); k > 0; k-- {
+				text += rng.Pick(cr, parseFragments...)
+			}
+		default:
+			text = g.group()
+			for k := cr.Range(1, 3); k > 0; k-- {
+				f := rng.Pick(cr, parseFragments...)
+				p := cr.Intn(len(text) + 1)
+				for p < len(text) && !utf8.RuneStart(text[p]) {
+					p++
+				}
+				text = text[:p] + f + text[p:]
+			}
+		}
+		if cr.P(1, 3) {
+			b := []byte(text)
+			for k := cr.Range(1, 2); k > 0 && len(b) > 0; k-- {
+				p := cr.Intn(len(b))
+				switch cr.Intn(3) {
+				case 0:
+					b = append(b[:p], b[p+1:]...)
+				case 1:
+					b[p] = rng.Pick(cr, byte('('), ')', '[', ']', ':', '.', '#', '"', '\'', '\\', ',', '>', '+', '~', ' ', '-', 'n', '0', '=', '*', '|', '/', 'i', '\n')
+				default:
+					b = b[:p]
+				}
+			}
+			text = string(b)
+		}
+		var group selector.SelectorGroup
+		var perr error
+		if p := guard(func() { group, perr = selector.ParseGroup(text) }); p != "" {
+			c.add(res.Finding{Kind: "crash", Op: "crash:ParseGroup", Input: "sel=" + strconv.Quote(text), Reason: p, Key: "ParseGroup", Seed: seed})
+			continue
+		}
+		if err := c.checkParse(text, group, perr, seed, "parser"); err != nil {
+			return err
+		}
+		c.out.Count("parse:"+text, perr == nil)
+		c.out.Hit("stream:parser")
+	}
+	return nil
+}
+
 // ---------------------------------------------------------------------------------------------
 
 // Run is the runner entry.
@@ -1116,15 +1246,15 @@ func Run(tier string, seed uint64, modelPath, repo string, out *res.Result) erro
 	defer m.Close()
 	c := &runner{m: m, out: out}
 	r := rng.New(seed)
-	nMain, nWild, nEsc, nEmpty, nMal := 4200, 800, 1500, 600, 1500
+	nMain, nWild, nEsc, nEmpty, nMal, nParse := 4200, 800, 1500, 600, 1500, 25000
 	if tier == "thorough" {
-		nMain, nWild, nEsc, nEmpty, nMal = 120000, 30000, 60000, 20000, 60000
+		nMain, nWild, nEsc, nEmpty, nMal, nParse = 120000, 30000, 60000, 20000, 60000, 1500000
 	}
 	out.Rule = "case = (selector group text generated from the supported grammar, tree); the real parser's AST (hook) and the tree go to the Lean model; " +
 		"compared for EVERY node of the tree: match bit of every selector of the group, plus specificity and pseudo-element; a difference on a LocalOk tree and a selOk selector (resp. any specificity difference) is a judge finding by the theorems, otherwise a corr finding. " +
 		"Trees: built directly as *html.Node (text/comment siblings, blank/doubled-space attribute values) and, one in three, re-read through html.Render+html.Parse. " +
 		"Streams: main, wild (outside LocalOk: nested html, exotic spaces, attributes on comments/doctype, fragments), escapes (names with leading digits/hyphens, specials, control characters, non-ASCII written with random CSS escapes, values with quotes/backslashes/newlines, the same odd names in the trees: exercises String()), " +
-		"malformed (mutated selector text: parse errors must not crash; accepted ones are compared), judges empty-value and corpus, thorough: exhaustive small bounds. " +
+		"malformed (mutated selector text: parse errors must not crash; accepted ones are compared), parser (texts only: generated selectors with spliced fragments — comments, escapes, constructs outside the grammar, near-misses — and byte mutations; real ParseGroup vs the parser model: ok/error, AST, String() vs the printer model), judges empty-value and corpus, thorough: exhaustive small bounds. " +
 		"non-trivial = the selector matches at least one node and not all; distinct by selector text + tree"
 	if err := c.corpus(); err != nil {
 		return err
@@ -1183,6 +1313,9 @@ func Run(tier string, seed uint64, modelPath, repo string, out *res.Result) erro
 			return err
 		}
 		out.Hit("stream:malformed")
+	}
+	if err := c.parseStream(r.Sub(), nParse); err != nil {
+		return err
 	}
 	if tier == "thorough" {
 		if err := c.exhaustive(); err != nil {
